@@ -20,7 +20,7 @@ from sim import runner
 FILES = ["windpyutils/files.py"]
 VARIANTS = ["MutableRandomLineAccessFile", "MutableMemoryMappedRandomLineAccessFile", "MutableRecordFile",
             "MutableMemoryMappedRecordFile"]
-WORDS = ["alpha", "", "two words", " pad ", "žluť", "日本", "a,b", "x" * 30, "0", "{\"k\":1}", "tab\tx", "end."]
+WORDS = ["alpha", "", "two words", " pad ", "žluť", "日本", "a,b", "x" * 30, "0", "{\"k\":1}", "tab\tx", "end.", "trail\t", "blank "]
 ENDINGS = ["\n", "\n", "\r\n", "\r", ";"]
 
 
@@ -29,6 +29,9 @@ def build_plan(choice: Choice, tier):
     p = {}
     p["variant"] = VARIANTS[d(4, "variant")]
     rec = "Record" in p["variant"]
+    # record variants: a JSON record class, or a pass-through record whose text is stored as it is (texts may end
+    # with blanks or tabs, which a record file must keep)
+    p["record_class"] = ["json", "raw"][d(2, "record.class")] if rec else None
     n = d(9, "init.n")
     if "MemoryMapped" in p["variant"] and n == 0:
         n = 1
@@ -66,7 +69,7 @@ def build_plan(choice: Choice, tier):
         elif k == 3:
             ops.append(["append", val()])
         elif k == 4:
-            ops.append(["extend", [val() for _ in range(d(3, "ext"))]])
+            ops.append(["extend", [val() for _ in range(d(3, "ext"))], ["list", "tuple", "generator", "iterator"][d(4, "ext.form")]])
         elif k == 5:
             ops.append(["pop", None if d(2, "popdefault") == 0 else d(12, "i") - 2])
         elif k == 6:
@@ -74,7 +77,7 @@ def build_plan(choice: Choice, tier):
         elif k == 7:
             ops.append(["reverse"])
         elif k == 8:
-            ops.append(["iadd", [val() for _ in range(d(3, "ext"))]])
+            ops.append(["iadd", [val() for _ in range(d(3, "ext"))], ["list", "tuple", "generator", "iterator"][d(4, "ext.form")]])
         elif k in (9, 10):
             ops.append(["get", d(12, "i") - 2])
         elif k == 11:
@@ -108,8 +111,21 @@ def build_plan(choice: Choice, tier):
     return p
 
 
-def make_record_class():
-    from windpyutils.files import JsonRecord
+def make_record_class(kind="json"):
+    from windpyutils.files import JsonRecord, Record
+    if kind == "raw":
+        @dataclass
+        class Raw(Record):
+            text: str
+            n: int = 0
+
+            @classmethod
+            def load(cls, s):
+                return cls(s, len(s))
+
+            def save(self):
+                return self.text
+        return Raw
 
     @dataclass
     class Rec(JsonRecord):
@@ -127,7 +143,7 @@ def execute(plan, choice, tmpdir, trace):
     import json
     import windpyutils.files as files
     rec = "Record" in plan["variant"]
-    Rec = make_record_class() if rec else None
+    Rec = make_record_class(plan.get("record_class") or "json") if rec else None
 
     def to_item(s):
         return Rec(s, len(s)) if rec else s
@@ -208,6 +224,11 @@ def execute(plan, choice, tmpdir, trace):
             if res_m != res_o:
                 v("list-model", f"{opname}:result", f"{opname}: object returned {res_o!r}, list {res_m!r}")
 
+    def shaped(xs, op):
+        # the argument of extend / += may be any iterable, also a one-shot one
+        form = op[2] if len(op) > 2 else "list"
+        return {"list": list(xs), "tuple": tuple(xs), "generator": (x for x in xs), "iterator": iter(list(xs))}[form]
+
     def do(op):
         k = op[0]
         if k == "set":
@@ -236,7 +257,7 @@ def execute(plan, choice, tmpdir, trace):
             expect_same("append", lambda: obj.append(s), lambda: model.append(s), True)
         elif k == "extend":
             xs = [to_item(s) for s in op[1]]
-            expect_same("extend", lambda: obj.extend(xs), lambda: model.extend(xs), bool(xs))
+            expect_same("extend", lambda: obj.extend(shaped(xs, op)), lambda: model.extend(xs), bool(xs))
         elif k == "iadd":
             xs = [to_item(s) for s in op[1]]
 
@@ -245,7 +266,7 @@ def execute(plan, choice, tmpdir, trace):
 
             def o():
                 nonlocal_obj = obj
-                nonlocal_obj += xs
+                nonlocal_obj += shaped(xs, op)
             expect_same("iadd", o, m, bool(xs))
         elif k == "pop":
             i = op[1]
